@@ -1,8 +1,11 @@
 (* C01 - the generated regex matches exactly the language the assembly file describes.
-   Statements only; proofs in Proofs/EquivSound.v and Proofs/AssemblerProofs.v. *)
+   Statements only; proofs in Proofs/EquivSound.v, Proofs/AssemblerProofs.v, Proofs/PlainReadingProofs.v
+   and Proofs/PlainReadingInstance.v. *)
 From Coq Require Import String Permutation.
 From Verif Require Import Base.Str Base.Lines Base.Outcome Regex.Re Regex.Equiv Model.Patterns Model.ParseLine Model.Passes Model.CmdLine Model.Parser Model.Assembler Model.Generate.
-From Verif Require Import Proofs.EquivSound Proofs.PassesProofs Proofs.CmdLineProofs Proofs.ParserProofs Proofs.AssemblerProofs.
+From Verif Require Import Model.PlainReading Model.ToyRegex.
+From Verif Require Import Proofs.EquivSound Proofs.PassesProofs Proofs.CmdLineProofs Proofs.ParserProofs Proofs.AssemblerProofs Proofs.PlainReadingProofs Proofs.PlainReadingInstance.
+From Verif Require Tie.Pin_calls_regex_operators_assembler_Operator_complete.
 From Verif Require Tie.Pin_lits_regex_operators_assembler_removeUnescapedMatches.
 From Verif Require Tie.Pin_perlSpaceClassRegexp_src Tie.Pin_const_regex_operators_assembler_perlSpaceClass.
 From Verif Require Tie.Pin_lits_regex_processors_assemble_Assemble_append Tie.Pin_lits_regex_processors_assemble_Assemble_store Tie.Pin_lits_regex_processors_assemble_Assemble_runAssemble Tie.Pin_lits_regex_processors_assemble_Assemble_wrapCompletedAssembly Tie.Pin_lits_regex_processors_assemble_Assemble_ProcessLine Tie.Pin_lits_regex_processors_assemble_Assemble_Complete Tie.Pin_lits_regex_operators_assembler_Operator_Run Tie.Pin_lits_regex_operators_assembler_Operator_assemble Tie.Pin_lits_regex_operators_assembler_Operator_complete Tie.Pin_lits_regex_operators_assembler_Operator_runFinalPass Tie.Pin_lits_regex_operators_assembler_Operator_runSimplificationAssembly Tie.Pin_lits_regex_operators_assembler_Operator_startPreprocessor Tie.Pin_lits_regex_operators_assembler_Operator_endPreprocessor Tie.Pin_ProcessorStartRegex_src Tie.Pin_ProcessorEndRegex_src Tie.Pin_AssembleInputRegex_src Tie.Pin_AssembleOutputRegex_src Tie.Pin_lits_regex_operators_operators_ProcessorStack_pop Tie.Pin_lits_regex_operators_operators_ProcessorStack_top Tie.Pin_lits_regex_parser_parser_Parser_Parse Tie.Pin_lits_regex_parser_parser_Parser_parseLine.
@@ -53,3 +56,70 @@ Theorem C01_single_line_segment_refuted :
 Proof. exact single_line_segment_copied_raw. Qed.
 Print Assumptions C01_single_line_segment_refuted.
 
+(* refuted part of the full statement: the white space pass rewrites the five characters tab,
+   newline, form feed, carriage return, space also where they are a literal sequence outside a
+   bracket expression (known finding C01-space-sequence-outside-class) *)
+Theorem C01_space_sequence_refuted :
+  final_passes ($"a\t\n\f\r b") = Ok ($"a\s\x0bb").
+Proof. exact space_sequence_outside_class_rewritten. Qed.
+Print Assumptions C01_space_sequence_refuted.
+
+(* THE REFINEMENT STATEMENT.  For every program (any nesting of blocks, any markers, any stored
+   names, cmdline blocks, prefixes, suffixes, flags), every optimiser [join] and every notion of
+   meaning (A, alternation, concatenation, [Den] for texts, [DenSeq] for texts that may be
+   juxtaposed) obeying the seven laws below: whenever the plain reading of the lines is defined
+   and is x, and the entries mean what the plain reading takes them to mean ([lines_ok]), the
+   operator's answer is the flag group followed by the final textual passes applied to a text
+   that means prefixes . x . suffixes.
+   The plain reading (Model/PlainReading.v) never looks at regex text; it is undefined on
+   ill-formed programs and where a segment of exactly one entry that is not sequence-level is
+   flushed (the recorded finding C01-single-line-raw, refuted below).  What the final passes do
+   to the meaning is C19/C02 and the recorded findings C01-dotall-stripped. *)
+Theorem C01_text_before_final_passes_means_plain_reading :
+  forall (join : list str -> option str) (cfg : config) (A : Type) (aalt : list A -> A) (acat : A -> A -> A)
+         (den_line : str -> A) (den_word : evasion -> str -> A) (seq_level : str -> bool)
+         (Den DenSeq : str -> A -> Prop),
+  (forall s a, DenSeq s a -> Den s a) ->
+  (forall s a, Den s a -> DenSeq (grp s) a) ->
+  (forall s t a b, DenSeq s a -> DenSeq t b -> DenSeq (s ++ t) (acat a b)) ->
+  (forall s x, Den s (aalt [x]) -> Den s x) ->
+  (forall s x, DenSeq s x -> DenSeq s (aalt [x])) ->
+  (forall ls r xs, join ls = Some r -> Forall2 Den ls xs -> ls <> [] -> Den r (aalt xs)) ->
+  (forall ls r, join ls = Some r -> ls <> [] -> r <> [] /\ m_assemble_input r = None /\ m_assemble_output r = None) ->
+  forall limit init p x pxs sxs out,
+  let lines := scan_lines limit (p_buffer p) in
+  lines_ok A aalt acat den_line den_word seq_level cfg Den DenSeq ([PPAsm A (pasm_new A)], []) lines ->
+  plain_body A aalt acat den_line den_word seq_level cfg lines = Some (Some x) ->
+  Forall2 DenSeq (p_prefixes p) pxs -> Forall2 DenSeq (p_suffixes p) sxs ->
+  assemble join cfg limit init p = Ok out ->
+  exists simplified cleaned,
+    Den simplified (whole A acat pxs x sxs) /\
+    final_passes simplified = Ok cleaned /\
+    out = match cleaned with [] => [] | _ => flags_prefix p ++ cleaned end.
+Proof. exact assemble_is_passes_of_plain_reading. Qed.
+Print Assumptions C01_text_before_final_passes_means_plain_reading.
+
+(* the laws are satisfiable and the statement is not vacuous: with a real semantics for a small
+   regex syntax (Model/ToyRegex.v: literals, groups, |, juxtaposition; meanings are sets of byte
+   strings) and the naive optimiser, all seven laws are proved, and for the file
+   ab / cd / ##!=> / ef the text handed to the final passes parses to exactly {abef, cdef} *)
+Theorem C01_refinement_instance :
+  forall limit init flag_i flag_s out,
+  let p := {| p_buffer := $"ab" ++ [10] ++ $"cd" ++ [10] ++ $"##!=>" ++ [10] ++ $"ef" ++ [10];
+              p_flag_i := flag_i; p_flag_s := flag_s; p_prefixes := []; p_suffixes := [] |} in
+  scan_lines limit (p_buffer p) = toy_lines ->
+  assemble toy_join toy_cfg limit init p = Ok out ->
+  exists simplified cleaned L,
+    AltP simplified L /\ (forall w, L w <-> (w = $"abef" \/ w = $"cdef")) /\
+    final_passes simplified = Ok cleaned /\
+    out = match cleaned with [] => [] | _ => flags_prefix p ++ cleaned end.
+Proof. exact toy_assemble. Qed.
+Print Assumptions C01_refinement_instance.
+
+Theorem C01_refinement_instance_runs :
+  let p := {| p_buffer := $"ab" ++ [10] ++ $"cd" ++ [10] ++ $"##!=>" ++ [10] ++ $"ef" ++ [10];
+              p_flag_i := false; p_flag_s := false; p_prefixes := []; p_suffixes := [] |} in
+  scan_lines 65536 (p_buffer p) = toy_lines /\
+  assemble toy_join toy_cfg 65536 [] p = Ok $"(?:(?:(?:(?:(?:(?:ab|cd)))(?:(?:(?:ef))))))".
+Proof. exact toy_assemble_runs. Qed.
+Print Assumptions C01_refinement_instance_runs.
